@@ -250,6 +250,22 @@ namespace
         }
     };
 
+    // element whose value/copy constructor throws on demand (fault: a failing constructor while an element is being stored)
+    struct FInt
+    {
+        int v = 0;
+        static int throw_after;
+        struct Boom {};
+        static void maybe() { if (throw_after > 0 && --throw_after == 0) { kit::fault("element_constructor_throws"); throw Boom(); } }
+        FInt() {}
+        FInt(long long x) { maybe(); v = (int)x; }
+        FInt(const FInt &o) { maybe(); v = o.v; }
+        FInt &operator=(const FInt &o) = default;
+        bool operator==(const FInt &o) const { return v == o.v; }
+        bool operator!=(const FInt &o) const { return v != o.v; }
+    };
+    int FInt::throw_after = 0;
+
     // ---------------------------------------------------------------- igris::ring<T, Alloc>
     // ops: [0 push v] [1 emplace v] [2 pop] [3 write n v] [4 read n] [5 get_last offset count order] [6 fixup idx]
     //      [7 distance a b] [8 resize n] [9 reset] [10 clear] [11 last/tail/head queries]
@@ -331,12 +347,38 @@ namespace
                         if (m.size() < (size_t)cap) // push on a full typed ring is caller misuse (no reject path in that API)
                         {
                             T v = val(arg(o, 1), 0);
-                            if (kind == 0) rg.push(v);
-                            else rg.emplace(v);
-                            m.push_back(v);
-                            hist.push_back(v);
-                            pushed++;
-                            tr.ev("push");
+                            bool thrown = false;
+                            if constexpr (std::is_same<T, FInt>::value)
+                            {
+                                // fault: the element's constructor throws while it is stored - the ring must be unchanged
+                                if (mod(arg(o, 1), 5) == 0) FInt::throw_after = 1;
+                                try
+                                {
+                                    if (kind == 0) rg.push(v);
+                                    else rg.emplace(v);
+                                }
+                                catch (const FInt::Boom &)
+                                {
+                                    thrown = true;
+                                    probe("store_with_throwing_constructor");
+                                    // the failed construction may have scribbled over the head slot, which physically still held
+                                    // the (cap+1)-th newest, already consumed element: forget that one
+                                    while (hist.size() > (size_t)cap) hist.pop_front();
+                                }
+                                FInt::throw_after = 0;
+                            }
+                            else
+                            {
+                                if (kind == 0) rg.push(v);
+                                else rg.emplace(v);
+                            }
+                            if (!thrown)
+                            {
+                                m.push_back(v);
+                                hist.push_back(v);
+                                pushed++;
+                            }
+                            tr.ev("push%s", thrown ? " (constructor threw)" : "");
                         }
                         break;
                     case 2:
@@ -620,10 +662,11 @@ int main(int argc, char **argv)
     CRingWorld cw;
     TypedRingWorld<char> tc(true, "igris::ring<char>");
     TypedRingWorld<int> ti(false, "igris::ring<int>");
+    TypedRingWorld<FInt> tf(false, "igris::ring<throwing element>");
     CyclicWorld cy;
     Harness h;
     h.property = "C03";
-    h.worlds = {&cw, &tc, &ti, &cy};
+    h.worlds = {&cw, &tc, &ti, &cy, &tf};
     h.real = {"igris/datastruct/ring.h", "igris/container/ring.h", "igris/datastruct/ring_counter.h", "igris/container/cyclic_buffer.h",
               "igris/container/unbounded_array.h"};
     h.stub = {"producer / consumer / DMA tasks with stalls (op-level interleaving from the plan)", "SimAlloc memory behind the Alloc parameter and the C ring's buffer",
